@@ -50,7 +50,8 @@ def parseHook (toks : List String) : Option (Hook × List Bool × List (Nat × N
     let kf ← match kv? "kfail" rest with
       | some s => natList? s
       | none => some []
-    some ({ name := id, v1 := v == "1", onStartup := os, kube := kube.map (·.1), sched := sched == "1", kfail := kf }, fl,
+    -- a v0 configuration has neither groups nor the flag: the model gets what the converter produces
+    some (convertV0 { name := id, v1 := v == "1", onStartup := os, kube := kube.map (·.1), sched := sched == "1", kfail := kf }, fl,
       kube.map (fun p => (id, p.1.name, p.2)))
   | _ => none
 
